@@ -1,9 +1,16 @@
 #!/bin/bash
-# usage: eval_mutants.sh <PROP> <worktree> <checks...>  -- confirm + run checks for every mutant dir of a worktree
-P=$1; WT=$2; shift; shift
-for m in $WT/mutants/m*/; do
-  name=$(basename $m)
-  c=$(/verif/confirm_mutant.sh $m 2>&1 | tail -1)
-  r=$(/verif/run_seeded.sh $m/patch.diff "$@" 2>&1 | tr '\n' ' ')
-  echo "== $P-$name | CONFIRM: $c | CHECKS: $r"
+# usage: eval_mutants.sh <logfile> <spec>...   spec = "Cxx-mN:CHECK1,CHECK2" or "Cxx:CHECK1,CHECK2" (all of m1..m3)
+# For each seeded mutant: confirm it (scratch worktree: suite passes, demo fails with it / passes without),
+# apply it to /repo, run the quick tier of the listed checks, undo it.  One line per mutant in <logfile>.
+cd /verif
+log=$1; shift
+for spec in "$@"; do
+  who=${spec%%:*}; checks=$(echo ${spec#*:} | tr ',' ' ')
+  if [[ $who == *-m* ]]; then dirs=/verif/seeded/$who; else dirs=$(ls -d /verif/seeded/$who-m*); fi
+  for m in $dirs; do
+    c=$(/verif/confirm_mutant.sh $m 2>&1 | tail -1)
+    r=$(/verif/run_seeded.sh $m/patch.diff $checks 2>&1 | tr '\n' ' ')
+    echo "== $(basename $m) | CONFIRM: $c | CHECKS: $r" >> $log
+  done
 done
+echo ALLDONE >> $log
